@@ -85,6 +85,48 @@ class PathResult:
         return self.outcome[0] == 'panic'
 
 
+def merge_paths(paths):
+    """Join paths that end the same way and whose conditions differ in the polarity of exactly one literal:
+    (G and a) or (G and not a) == G.  Forks on a test whose outcome does not influence anything (a classification
+    that one caller ignores, a guard duplicated by a helper) would otherwise show up as unrelated residual
+    literals in every rule.  Sound and exact: only the disjunction of two path conditions is rewritten."""
+    def key(p):
+        return (p.outcome, p.ret, repr(sorted(p.effects.items(), key=lambda kv: kv[0])), tuple(p.events), tuple(p.unknowns), tuple(p.loops))
+    groups = {}
+    order = []
+    for p in paths:
+        try:
+            k = key(p)
+        except TypeError:
+            k = id(p)
+        if k not in groups:
+            groups[k] = []
+            order.append(k)
+        groups[k].append(p)
+    out = []
+    for k in order:
+        g = groups[k]
+        changed = True
+        while changed and len(g) > 1:
+            changed = False
+            sets = [set(p.guard) for p in g]
+            for i in range(len(g)):
+                for j in range(i + 1, len(g)):
+                    d1, d2 = sets[i] - sets[j], sets[j] - sets[i]
+                    if len(d1) == 1 and len(d2) == 1:
+                        (a1, p1), = d1
+                        (a2, p2), = d2
+                        if a1 == a2 and p1 != p2 and a1[0] != 'variant':
+                            g[i].guard = [l for l in g[i].guard if l != (a1, p1)]
+                            del g[j]
+                            changed = True
+                            break
+                if changed:
+                    break
+        out.extend(g)
+    return out
+
+
 def canon_literal(cond):
     """boolean term -> (atom, polarity) with a canonical orientation of comparisons."""
     pol = True
@@ -134,6 +176,7 @@ class Summarizer:
         self.tenv = TypeEnv(facts)
         self.assume_no_overflow = assume_no_overflow
         self.max_paths = max_paths
+        self.merge = True
         self.nfid = 0
         self.nfresh = 0
         self.nheap = 0
@@ -245,7 +288,7 @@ class Summarizer:
                     else:
                         work.append(n)
                 break
-        return results
+        return merge_paths(results) if self.merge else results
 
     def finish(self, st, params):
         out = st.done
@@ -414,6 +457,8 @@ class Summarizer:
 
     def resolve_place(self, st, fr, place):
         """MIR place -> (cell, path), following dereferences."""
+        if place[0] == 'cell':
+            return place[1]      # already resolved (indirect call through a function value)
         local, proj = place
         cell = (fr.fid, local)
         path = ()
@@ -805,6 +850,8 @@ class Summarizer:
                 st.done = ('panic', term['msg'], self.where(fr, term))
                 return [st]
             if self.assume_no_overflow and term['msg'].startswith('Overflow'):
+                # assumed away for the real-mode rules, but remembered: the rule must discharge it on its domain
+                st.events.append(('no_overflow', self.resolve_deep(st, c), self.where(fr, term)))
                 return [self.goto(st, fr, term['target'])]
             out = []
             for s2, b in self.fork_bool(st, c):
@@ -843,6 +890,15 @@ class Summarizer:
         target = term['target']
         if callee is None:
             raise Unsupported('call without callee record at %s' % self.where(fr, term))
+        if callee.get('rkind') == 'indirect' and 'func' in term:
+            # a call through a function pointer / value: run the function item or closure it holds, if known
+            fv = self.eval_operand(st, fr, term['func'])
+            while fv[0] == 'ref':
+                fv = self.read_cell(st, fv[1], fv[2])
+            if fv[0] in ('fn', 'closure'):
+                r = self.call_closure_value(st, fr, fv, ('tuple', tuple(args)) if args else UNIT, dest, target)
+                if r is not None:
+                    return r
         if 'inst' in callee:
             cdef = fr.insts[callee['inst']]['def']
             stub = self.stubs.get(cdef)
@@ -956,19 +1012,25 @@ class Summarizer:
         insts = self._insts_by_id[iid]
         rec = insts[idx]['fnitemmap'][key]
         args = list(argtuple[1]) if argtuple[0] == 'tuple' else ([] if argtuple == UNIT else [argtuple])
-        if 'inst' in rec:
+        if 'ctor' in rec:
+            # a tuple-struct / tuple-variant constructor (local ones also carry an instance: its shim has no body here)
+            val = ('adt', norm_path(rec['ctor']['adt']), rec['ctor']['variant'], tuple(args))
+        elif 'inst' in rec:
             cdef = insts[rec['inst']]['def']
             if self.stubs.get(cdef) is not None:
                 raise Unsupported('stubbed function %s used as a function value' % cv[1])
             return self.call_local(st, fr, insts, rec['inst'], args, dest, target)
-        if 'ctor' in rec:
-            val = ('adt', norm_path(rec['ctor']['adt']), rec['ctor']['variant'], tuple(args))
         else:
-            term = {'target': target, 'dest': None, 'args': [], 'line': '?'}
+            # the model sees a call whose destination / continuation are the ones of this indirect call
+            term = {'target': target, 'dest': ('cell', dest), 'args': [], 'line': '?'}
             res = self.models.apply(st, fr, rec, args, None, term)
-            if len(res) != 1 or res[0][0] is not st or res[0][1] is None or st.done is not None:
-                raise Unsupported('function value %s: model with several outcomes' % cv[1])
-            val = res[0][1]
+            out = []
+            for s2, v2 in res:
+                if s2.done is not None or v2 is None:
+                    out.append(s2)            # finished, or the model continues by itself (pushed a frame)
+                else:
+                    out.extend(self.continue_with(s2, v2, dest, target))
+            return out
         return self.continue_with(st, val, dest, target)
 
     def continue_with(self, st, v, ret_dest, target):
